@@ -77,7 +77,9 @@ fn get_avp_len(b: &[u8], at: usize) -> u16 {
     }
 }
 
-const BAD_UTF8: [&[u8]; 8] = [&[0xff], &[0xc0, 0x80], &[0xc1, 0xbf], &[0xe0, 0x80, 0x80], &[0xed, 0xa0, 0x80], &[0xf4, 0x90, 0x80, 0x80], &[0xf5, 0x80, 0x80, 0x80], &[0xe2, 0x82]];
+const BAD_UTF8: [&[u8]; 10] = [&[0xff], &[0xc0, 0x80], &[0xc1, 0xbf], &[0xe0, 0x80, 0x80], &[0xed, 0xa0, 0x80], &[0xf4, 0x90, 0x80, 0x80], &[0xf5, 0x80, 0x80, 0x80], &[0xe2, 0x82],
+    // CESU-8 / Java "modified UTF-8": a surrogate pair, and an overlong NUL
+    &[0xed, 0xa0, 0xbd, 0xed, 0xb8, 0x80], &[0x61, 0xc0, 0x80, 0x62]];
 
 pub const N_MUTATIONS: usize = 20;
 pub const MUTATION_NAMES: [&str; N_MUTATIONS] = [
@@ -386,6 +388,22 @@ pub fn hostile(r: &mut Rng) -> (Vec<u8>, Vec<&'static str>) {
             (b, vec!["splice"])
         }
         4 => (valid_message(r).bytes, vec!["valid"]),
+        5 if r.chance(1, 2) => {
+            // a control message dressed like a data message: O bit set and an offset-size field
+            // (plus that much padding) squeezed in behind the 12-octet header, Length adjusted
+            let c = val::control(r, 4, 30);
+            let mut b = wire_control(&c).bytes;
+            let pad = r.below(4) as usize;
+            let mut ins = vec![0u8, pad as u8];
+            ins.extend_from_slice(&r.bytes(pad));
+            let tail = b.split_off(12);
+            b.extend_from_slice(&ins);
+            b.extend_from_slice(&tail);
+            b[0] |= 0x40;
+            let total = b.len() as u16;
+            put16(&mut b, 2, total);
+            (b, vec!["control_with_offset_field"])
+        }
         _ => {
             let mut w = valid_message(r);
             let k = 1 + r.below(3) as usize;
